@@ -13,6 +13,7 @@ import DialsModel.Model.ParseInt
 import DialsModel.Model.Split
 import DialsModel.Lemmas.Parse
 import DialsModel.Lemmas.Scan
+import DialsModel.Lemmas.Duration
 
 namespace Dials.C15
 open Dials Dials.Parse
@@ -302,6 +303,69 @@ theorem C15_scanner_examples :
     scanText false "\"\\400\"".toList = some [.str none, .eof] ∧
     scanText true "k:`r\\n`".toList = some [.word ['k'], .colon, .str (some "r\\n".toList), .eof] := by
   refine ⟨by decide, by decide, by decide, by decide, by decide⟩
+
+/-! ### durations and bools (models of time.Duration.String, time.ParseDuration, strconv.ParseBool; tied by stream 10) -/
+
+/-- Durations: what Duration.String prints for ANY int64 value - sub-microsecond, fractional micro-, milli- and seconds,
+hours/minutes/seconds, the extremes - is parsed back by time.ParseDuration to exactly that value. -/
+theorem C15_duration_roundtrip (d : Int) (h1 : -(9223372036854775808 : Int) ≤ d) (h2 : d < 9223372036854775808) :
+    parseDuration (fmtDuration d) = .ok d := by
+  have h63 : two63 = 9223372036854775808 := rfl
+  unfold fmtDuration
+  by_cases hneg : d < 0
+  · have := parseDuration_fmtNat d.natAbs (by omega) true (by simp)
+    simp only [if_true] at this
+    simp only [hneg, if_true, this]
+    congr 1; omega
+  · have := parseDuration_fmtNat d.natAbs (by omega) false (by intro _; omega)
+    simp only [Bool.false_eq_true, if_false] at this
+    simp only [hneg, if_false, this]
+    congr 1; omega
+
+theorem parseDurationCore_in_range (neg : Bool) (s1 : Str) (d : Int) (h : parseDurationCore neg s1 = .ok d) :
+    -(9223372036854775808 : Int) ≤ d ∧ d < 9223372036854775808 := by
+  have h63 : two63 = 9223372036854775808 := rfl
+  unfold parseDurationCore at h
+  by_cases c0 : s1 = ['0']
+  · rw [if_pos c0] at h; simp only [DurR.ok.injEq] at h; omega
+  · rw [if_neg c0] at h
+    by_cases ce : s1.isEmpty = true
+    · simp [ce] at h
+    · simp only [ce, Bool.false_eq_true, if_false] at h
+      cases hl : parseLoop (s1.length + 1) s1 0 with
+      | err => simp [hl] at h
+      | ood => simp [hl] at h
+      | ok r =>
+        have hb := parseLoop_bound _ _ 0 r (by omega) hl
+        simp only [hl] at h
+        cases neg with
+        | true => simp only [if_true, DurR.ok.injEq] at h; omega
+        | false =>
+          simp only [Bool.false_eq_true, if_false] at h
+          by_cases cb : r > two63 - 1
+          · simp [cb] at h
+          · simp only [cb, if_false, DurR.ok.injEq] at h; omega
+
+/-- ... and never wraps: whatever the text, a parsed duration lies within int64 (a total of more than 1<<63
+nanoseconds, or of exactly 1<<63 without a minus sign, is an error). -/
+theorem C15_duration_in_range (s : Str) (d : Int) (h : parseDuration s = .ok d) :
+    -(9223372036854775808 : Int) ≤ d ∧ d < 9223372036854775808 :=
+  parseDurationCore_in_range _ _ d h
+
+theorem C15_duration_examples :
+    fmtDuration 1500 = "1.5".toList ++ microSign ++ ['s'] ∧ fmtDuration 90000000000 = "1m30s".toList ∧
+    fmtDuration 0 = "0s".toList ∧ fmtDuration (-9223372036854775808) = "-2562047h47m16.854775808s".toList ∧
+    parseDuration "1h2m3.5s".toList = .ok 3723500000000 ∧ parseDuration "-1.5h".toList = .ok (-5400000000000) ∧
+    parseDuration "9223372036854775807ns".toList = .ok 9223372036854775807 ∧
+    parseDuration "9223372036854775808ns".toList = .err ∧ parseDuration "-9223372036854775808ns".toList = .ok (-9223372036854775808) ∧
+    parseDuration "2562048h".toList = .err ∧ parseDuration "2562047h47m16.854775808s".toList = .err ∧
+    parseDuration "1".toList = .err ∧ parseDuration "1d".toList = .err ∧ parseDuration ".s".toList = .err ∧
+    parseDuration "0".toList = .ok 0 ∧ parseDuration "1.0000000001s".toList = .ood := by
+  refine ⟨by decide, by decide, by decide, by decide, by decide, by decide, by decide, by decide, by decide, by decide,
+    by decide, by decide, by decide, by decide, by decide, by decide⟩
+
+/-- Bools: FormatBool's text parses back; ParseBool accepts exactly the twelve spellings. -/
+theorem C15_bool_roundtrip (b : Bool) : parseBool (formatBool b) = some b := by cases b <;> decide
 
 /-- regenerated facts F13 -/
 theorem C15_facts : Facts.parseNumberBits = 64 ∧ Facts.parseNumberChecksOverflow = true ∧
